@@ -27,6 +27,12 @@
 (*   absFor   {[t, a]}   abstract definition used for list type t           *)
 (*   notes {[k, id]} / noterefs {[k, id, by]}   k in {"fn","en"}             *)
 (*   rmnotes  notes removed by the caller                                   *)
+(*   based    {[id, on]}  basedOn of the styles added through the style API *)
+(*            (style hierarchies: custom on built-in, custom on custom ...) *)
+(*   alt      <<>> or <<t>>: the OTHER document alive in the same process   *)
+(*            (t is a state of the same shape with alt = <<>>); "Switch"    *)
+(*            makes it the current one. Every other operation acts on the   *)
+(*            current document only and must leave the other one alone.     *)
 (* An operation is a record [op |-> name, ...args].                         *)
 (***************************************************************************)
 EXTENDS Integers, Sequences, FiniteSets, TLC
@@ -70,6 +76,12 @@ ByOfNum(s, n) == IF \E r \in s.nrefs : r.n = n THEN (CHOOSE r \in s.nrefs : r.n 
 ByOfNote(s, k, i) == IF \E r \in s.noterefs : r.k = k /\ r.id = i
                      THEN (CHOOSE r \in s.noterefs : r.k = k /\ r.id = i).by ELSE "unattributed"
 PendIds(s) == {p.id : p \in s.pending}
+\* style hierarchy: what a style added through the API is based on ("" = not added through the API / no base)
+OnOf(s, i) == IF \E b \in s.based : b.id = i THEN (CHOOSE b \in s.based : b.id = i).on ELSE ""
+SetOn(B, i, on) == {b \in B : b.id # i} \cup (IF on = "" THEN {} ELSE {[id |-> i, on |-> on]})
+BaseClass(s, i) == IF OnOf(s, i) = "" THEN "no-base" ELSE "on-" \o IdClass(OnOf(s, i))
+\* the other document of the process
+Bare(s) == [s EXCEPT !.alt = <<>>]
 \* mark id as added/changed through the style API (an id added since the last save stays "added")
 Pend(s, i) == {p \in s.pending : p.id # i}
               \cup {[id |-> i, kind |-> IF [id |-> i, kind |-> "added"] \in s.pending \/ i \notin s.reg
@@ -88,7 +100,7 @@ When(s) == IF s.origin = "foreign" THEN "after-open-foreign"
 InitSt == [origin |-> "new", saves |-> 0, reg |-> DefaultIds, ver |-> {}, hasPart |-> FALSE,
            part |-> {}, pver |-> {}, pending |-> {}, removed |-> {}, refs |-> {}, sdt |-> FALSE,
            nrefs |-> {}, nums |-> {}, abss |-> {}, absFor |-> {},
-           noterefs |-> {}, notes |-> {}, rmnotes |-> {}]
+           noterefs |-> {}, notes |-> {}, rmnotes |-> {}, based |-> {}, alt |-> <<>>]
 
 \* ---- foreign packages (the specification is the single source: the op carries the content) ----
 \* shape = [name, styles <<[id, v, t]>>, paras <<[k, st, n]>>, nums <<[n, a]>>, abss <<a>>]  (sequences: JSON arrays)
@@ -188,12 +200,14 @@ Apply(s, op) ==
   IF Ret(s, op) # "ok" THEN s
   ELSE CASE op.op = "AddStyle" ->
               [s EXCEPT !.reg = @ \cup {op.id}, !.ver = SetVer(@, op.id, op.v),
-                        !.pending = Pend(s, op.id), !.removed = @ \ {op.id}]
+                        !.pending = Pend(s, op.id), !.removed = @ \ {op.id},
+                        !.based = SetOn(@, op.id, op.on)]
          [] op.op = "ModifyStyle" ->
               [s EXCEPT !.ver = SetVer(@, op.id, op.v), !.pending = Pend(s, op.id)]
-         [] op.op = "RemoveStyle" ->
+         [] op.op = "RemoveStyle" ->     \* exactly the style named goes; styles based on it stay (their basedOn dangles)
               [s EXCEPT !.reg = @ \ {op.id}, !.ver = DropVer(@, {op.id}), !.pending = {p \in @ : p.id # op.id},
-                        !.removed = IF op.id \in s.reg THEN @ \cup {op.id} ELSE @]
+                        !.removed = IF op.id \in s.reg THEN @ \cup {op.id} ELSE @,
+                        !.based = SetOn(@, op.id, "")]
          [] op.op = "AddListItem" ->
               LET n == FreshNum(s)
                   a == IF \E x \in s.absFor : x.t = op.t THEN (CHOOSE x \in s.absFor : x.t = op.t).a ELSE FreshAbs(s)
@@ -211,9 +225,11 @@ Apply(s, op) ==
          [] op.op = "Save" -> SaveSt(s)
          [] op.op = "Reopen" ->
               [SaveSt(s) EXCEPT !.origin = IF op.fresh THEN "reopen-fresh" ELSE "reopen", !.saves = 0]
-         [] op.op = "OpenForeign" -> OpenShape(op.shape)
+         [] op.op = "OpenForeign" -> [OpenShape(op.shape) EXCEPT !.alt = s.alt]
          [] op.op = "Markdown" ->
-              [InitSt EXCEPT !.refs = {[id |-> i, by |-> "Markdown"] : i \in MdRefs(op.kind)}]
+              [InitSt EXCEPT !.refs = {[id |-> i, by |-> "Markdown"] : i \in MdRefs(op.kind)}, !.alt = s.alt]
+         [] op.op = "Switch" ->          \* the other document (a new one if there is none yet) becomes the current one
+              [(IF s.alt = <<>> THEN InitSt ELSE s.alt[1]) EXCEPT !.alt = <<Bare(s)>>]
          [] OTHER ->
               LET ids == Emits(s, op)
                   t   == AddRefs(s, op, ids)
@@ -223,9 +239,9 @@ Apply(s, op) ==
               IN [u EXCEPT !.sdt = IF op.op \in {"GenerateTOC", "AutoGenerateTOC", "TOCEntry"} THEN TRUE ELSE @]
 
 \* ---- the package a save writes (reference machine) ---------------------------
-\* pkg = [styles {id}, sver {[id,v]}, refs {id}, numrefs {n}, nums {[n,a]}, abss {a}, noterefs {[k,id]}, notes {[k,id]}]
+\* pkg = [styles {id}, sver {[id,v]}, sbased {[id,on]}, refs {id}, numrefs {n}, nums {[n,a]}, abss {a}, noterefs {[k,id]}, notes {[k,id]}]
 SaveView(s) ==
-  [styles |-> s.reg, sver |-> s.ver, refs |-> RefIds(s), numrefs |-> {r.n : r \in s.nrefs},
+  [styles |-> s.reg, sver |-> s.ver, sbased |-> s.based, refs |-> RefIds(s), numrefs |-> {r.n : r \in s.nrefs},
    nums |-> s.nums, abss |-> s.abss,
    noterefs |-> {[k |-> r.k, id |-> r.id] : r \in s.noterefs}, notes |-> s.notes]
 
@@ -238,6 +254,13 @@ Viol_Style(s, pkg) ==
 Viol_Written(s, pkg) ==
   {<<"style-not-written", When(s), p.kind, IF p.id \in s.part THEN "in-part" ELSE "not-in-part">> :
        p \in {q \in s.pending : q.id \in s.reg /\ (q.id \notin pkg.styles \/ VerOf(pkg.sver, q.id) # VerOf(s.ver, q.id))}}
+  \* written, but based on something else than the caller said
+  \cup {<<"style-not-written", When(s), p.kind, "based-on">> :
+       p \in {q \in s.pending : q.id \in s.reg /\ q.id \in pkg.styles /\ OnOf(s, q.id) # ""
+                                 /\ [id |-> q.id, on |-> OnOf(s, q.id)] \notin pkg.sbased}}
+  \* added/changed through the style API, never removed by the caller, yet gone from the registry and from the save
+  \cup {<<"style-lost", When(s), p.kind, BaseClass(s, p.id)>> :
+       p \in {q \in s.pending : q.id \notin s.reg /\ q.id \notin pkg.styles}}
 Viol_Num(s, pkg) ==
   {<<"undefined-num", s.origin, ByOfNum(s, n), "no-num">> :
        n \in {m \in pkg.numrefs : m # 0 /\ ~\E x \in pkg.nums : x.n = m}}
